@@ -136,7 +136,7 @@ func (c *simClock) Now() time.Time {
 	}
 	t = t.In(c.zone)
 	c.reads++
-	if c.reads > 1 && t.Equal(c.last) && c.w.sch == nil {
+	if c.reads > 1 && t.Equal(c.last) && !c.w.inTasks() {
 		c.w.stats["clock.same_instant_as_previous_read"]++
 	}
 	c.last = t
@@ -151,7 +151,7 @@ func (c *simClock) Now() time.Time {
 		c.now = c.now.Add(time.Duration(step))
 		c.covered += step
 	}
-	if c.w.sch == nil {
+	if !c.w.inTasks() {
 		c.w.emit(scen.Event{T: c.w.task(), K: "clock", N: t.Nanosecond(), S: strconv.FormatInt(t.Unix(), 10)})
 	}
 	return t
@@ -259,7 +259,7 @@ func (w *W) mapOrder(site string, n int) []int {
 		perm = append(perm, idx[k])
 		idx = append(idx[:k], idx[k+1:]...)
 	}
-	if w.sch == nil {
+	if !w.inTasks() {
 		w.emit(scen.Event{T: w.task(), K: "map", S: site, N: v})
 	}
 	return perm
